@@ -302,9 +302,10 @@ fn curve_work<G: Cv>(progs: &[&Program], o: &Opts, start: std::time::Instant, re
             let out = judge::<G>(&env, &b.prog, &rp.comms, &rp.parts, o.seed);
             if matches!(d, DevSel::RefHonest) {
                 if let Out::Agree { accept: false, why } = &out {
-                    if why.starts_with("does not decode") {
-                        // the decoder rejects a well-formed encoding: C11's business
-                        return Out::Agree { accept: false, why: format!("precondition: {}", why) };
+                    if why.starts_with("does not decode") || why.starts_with("precondition") {
+                        // the decoder rejects a well-formed encoding (C11's business), or the verifier
+                        // diverges from the reference model (C16's business)
+                        return Out::Agree { accept: false, why: if why.starts_with("precondition") { why.clone() } else { format!("precondition: {}", why) } };
                     }
                     // the reference prover follows Appendix A; if both the real verifier and the
                     // separate relations reject its honest proof the reference prover itself is at
